@@ -26,6 +26,7 @@ func init() {
 			{"C19-R2", "never-cases dominate", c19r2},
 			{"C19-R3", "label before annotation", c19r3},
 			{"C19-R4", "selectors precede the namespace policy for every fallback", c19r4},
+			{"C19-R5", "stripping does not remove what re-insertion reads", c19r5},
 		},
 	})
 }
@@ -383,4 +384,82 @@ func c19r4(c *Ctx) {
 	c.Check("fallback arms found", fn.Pos(), n >= 2, "expected the absent-value and the unrecognised-value arms")
 	_ = strings.TrimSpace
 	c.Floor(8)
+}
+
+
+// C19-R5: re-injection runs reinsertOverrides(stripPod(pod)): stripPod removes what a previous injection added,
+// reinsertOverrides then restores the user's original containers from an annotation of the stripped pod. The annotation
+// keys stripPod deletes and the keys reinsertOverrides reads are disjoint; otherwise the second injection silently loses
+// the user's containers / settings and injection is no longer idempotent.
+func c19r5(c *Ctx) {
+	p := c.P
+	strip := p.Func(pkgInject, "", "stripPod")
+	reins := p.Func(pkgInject, "", "reinsertOverrides")
+	// the pipeline itself
+	rt := p.Func(pkgInject, "", "RunTemplate")
+	piped := false
+	for _, call := range callsIn(rt, p.FuncObj(pkgInject, "", "reinsertOverrides")) {
+		for _, a := range call.Common().Args {
+			if inner, ok := a.(*ssa.Call); ok && isCallTo(inner, p.FuncObj(pkgInject, "", "stripPod")) {
+				piped = true
+			}
+		}
+	}
+	c.Check("RunTemplate feeds stripPod's result to reinsertOverrides", rt.Pos(), piped, "the strip/re-insert pipeline is no longer recognisable in RunTemplate")
+	// an annotation key: <annotation.X>.Name where X is a package-level variable
+	keyOf := func(v ssa.Value) string {
+		u, ok := v.(*ssa.UnOp)
+		if !ok {
+			return ""
+		}
+		fa, ok := u.X.(*ssa.FieldAddr)
+		if !ok || fieldVar(fa.X.Type(), fa.Field).Name() != "Name" {
+			return ""
+		}
+		if g, ok := fa.X.(*ssa.Global); ok {
+			return g.Name()
+		}
+		return ""
+	}
+	isAnnotations := func(v ssa.Value) bool {
+		fv := fieldOfLoad(v)
+		return fv != nil && fv.Name() == "Annotations"
+	}
+	local := func(f *ssa.Function) bool { return funcPkgPath(f) != istioMod+"/"+pkgInject }
+	deleted := map[string]token.Pos{}
+	for f := range p.CG().Reach([]*ssa.Function{strip}, local) {
+		eachInstr(f, func(ins ssa.Instruction) {
+			call, ok := ins.(*ssa.Call)
+			if !ok {
+				return
+			}
+			if bi, ok := call.Call.Value.(*ssa.Builtin); ok && bi.Name() == "delete" && isAnnotations(call.Call.Args[0]) {
+				if k := keyOf(call.Call.Args[1]); k != "" {
+					deleted[k] = call.Pos()
+				}
+			}
+		})
+	}
+	read := map[string]token.Pos{}
+	for f := range p.CG().Reach([]*ssa.Function{reins}, local) {
+		eachInstr(f, func(ins ssa.Instruction) {
+			if lk, ok := ins.(*ssa.Lookup); ok && isAnnotations(lk.X) {
+				if k := keyOf(lk.Index); k != "" {
+					read[k] = lk.Pos()
+				}
+			}
+		})
+	}
+	c.Check("stripPod deletes annotations", strip.Pos(), len(deleted) >= 1, "no annotation deletion found in stripPod")
+	c.Check("reinsertOverrides reads an annotation", reins.Pos(), len(read) >= 1, "no annotation lookup found in reinsertOverrides")
+	keys := sortedKeys(read)
+	for _, k := range keys {
+		pos, bad := deleted[k]
+		if !bad {
+			pos = read[k]
+		}
+		c.Check("annotation read by reinsertOverrides survives stripPod: "+k, pos, !bad,
+			"stripPod deletes the annotation "+k+" from the pod it hands to reinsertOverrides, which reads exactly that annotation to restore the user's original containers: on a second injection nothing is restored (user containers patched by a template are lost or reset) and inject(inject(pod)) != inject(pod)")
+	}
+	c.Floor(4)
 }
